@@ -56,24 +56,39 @@ SlotsOnlyGrow(pre, post) ==
 
 -----------------------------------------------------------------------------
 (* C03: protocols *)
-(* the most recent pulse-typed slot of channel j that conflicts with a pulse *)
-(* on the targets mytg (any pulse for wait-for-all); 0 if none               *)
-ConflictIdx(st, j, mytg, proto) ==
+(* Which fall time does a pulse-typed slot have?  A slot played inside an EOM *)
+(* block ramps down with the EOM bandwidth, one played outside with the       *)
+(* channel's; the implementation takes the fall time with the channel's       *)
+(* CURRENT mode, and for slots at the boundary of a block (buffers, the last  *)
+(* pulse before disabling) either reading is defensible.  The predicates      *)
+(* therefore use a don't-care band: "no conflict" is checked with the weakest *)
+(* reading (smallest plausible fall time, zero-amplitude detuned delays do    *)
+(* not conflict), "minimal" with the strongest (largest plausible fall time,  *)
+(* any pulse-typed slot).  On channels that never entered EOM mode the two    *)
+(* readings coincide up to the treatment of detuned delays (which only exist  *)
+(* in EOM mode).                                                              *)
+FallWeak(c, op) == IF c.eb = <<>> THEN op.fs ELSE Min2(op.fs, op.fe)
+FallStrong(c, op) == IF c.eb = <<>> THEN op.fs ELSE Max2(op.fs, op.fe)
+
+(* end (with fall time) of the most recent conflicting slot of channel j *)
+ConflictEnd(st, j, mytg, proto, strong) ==
   LET c == st.ch[j]
       I == {k \in 1..Len(c.sl) :
-              c.sl[k].k = "p" /\ (proto = "wait-for-all" \/ Meet(c.sl[k].tg, mytg, NQ(st)))}
-  IN IF I = {} THEN 0 ELSE CHOOSE k \in I : \A l \in I : l <= k
+              /\ c.sl[k].k = "p"
+              /\ (strong \/ ~c.sl[k].dd)
+              /\ (proto = "wait-for-all" \/ Meet(c.sl[k].tg, mytg, NQ(st)))}
+  IN IF I = {} THEN 0
+     ELSE LET k == CHOOSE k \in I : \A l \in I : l <= k IN
+          c.sl[k].tf + (IF strong THEN FallStrong(c, c.sl[k]) ELSE FallWeak(c, c.sl[k]))
 
-ConflictEnd(st, j, mytg, proto) ==
-  LET k == ConflictIdx(st, j, mytg, proto) IN
-  IF k = 0 THEN 0 ELSE st.ch[j].sl[k].tf + PlayedFall(st.ch[j], st.ch[j].sl[k])
+(* phase-jump requirement counted from the end of the previous real pulse *)
+PJNeed(cfg, c, prev, strong) ==
+  IF strong
+  THEN Max2(cfg.pjt, IF c.eb # <<>> THEN 2 * cfg.rise ELSE 0) + FallStrong(c, prev)
+  ELSE (IF InEom(c) THEN Max2(cfg.pjt, 2 * cfg.erise) ELSE cfg.pjt) + FallWeak(c, prev)
 
-(* phase-jump requirement of the channel in its current mode, counted from  *)
-(* the end of the previous real pulse                                       *)
-PJReq(cfg, c) == Max2(cfg.pjt, IF InEom(c) THEN 2 * cfg.rise ELSE 0)
-
-(* is start time t allowed for a pulse of phase ph added to channel i?      *)
-StartAllowed(pre, i, proto, ph, t) ==
+(* is start time t allowed for a pulse of phase ph added to channel i? *)
+StartAllowed(pre, i, proto, ph, t, strong) ==
   LET c == pre.ch[i]
       cfg == CfgOf(pre, i)
       last == LastOf(c.sl)
@@ -84,9 +99,8 @@ StartAllowed(pre, i, proto, ph, t) ==
   /\ t >= t0
   /\ t >= RefBarrier(pre, bi, last.tg)
   /\ proto # "no-delay" =>
-       /\ \A j \in 1..Len(pre.ch) : j # i => t >= ConflictEnd(pre, j, last.tg, proto)
-       /\ (lp # 0 /\ c.sl[lp].ph # ph) =>
-             t - c.sl[lp].tf >= PJReq(cfg, c) + PlayedFall(c, c.sl[lp])
+       /\ \A j \in 1..Len(pre.ch) : j # i => t >= ConflictEnd(pre, j, last.tg, proto, strong)
+       /\ (lp # 0 /\ c.sl[lp].ph # ph) => t - c.sl[lp].tf >= PJNeed(cfg, c, c.sl[lp], strong)
   /\ \/ t = t0
      \/ /\ t - t0 >= cfg.minDur
         /\ (t - t0) % cfg.clock = 0
@@ -102,7 +116,7 @@ PhaseJumpOK(cfg, c, k, noDelay) ==
     LET l == CHOOSE l \in P : \A m \in P : m <= l
         prev == c.sl[l]
         need == IF PlayedInEom(c, op) THEN Max2(cfg.pjt, 2 * cfg.erise) ELSE cfg.pjt
-    IN prev.ph # op.ph => op.ti - prev.tf >= need + PlayedFall(c, prev)
+    IN prev.ph # op.ph => op.ti - prev.tf >= need + FallWeak(c, prev)
 
 RetargetOK(cfg, c, k) ==
   LET op == c.sl[k]
@@ -113,7 +127,7 @@ RetargetOK(cfg, c, k) ==
     /\ T # {} => op.tf - c.sl[CHOOSE l \in T : \A m \in T : m <= l].tf >= cfg.minRet
     /\ op.tf - op.ti >= cfg.fixRet
     /\ P # {} => LET l == CHOOSE l \in P : \A m \in P : m <= l IN
-                 op.ti >= c.sl[l].tf + PlayedFall(c, c.sl[l])
+                 op.ti >= c.sl[l].tf + FallWeak(c, c.sl[l])
 
 -----------------------------------------------------------------------------
 TimelineChanging ==
@@ -152,9 +166,9 @@ Viol(pre, c, r, h) ==
   \cup (IF c.op \in ReadOnly /\ post # pre THEN {"C09.ReadOnly"} ELSE {})
   \cup (IF Measured(pre) /\ c.op \in TimelineChanging /\ (ok \/ Timeline(post) # Timeline(pre))
         THEN {"C13.FrozenAfterMeasure"} ELSE {})
-  \cup (IF isAdd /\ ~StartAllowed(pre, i, proto, NewPh, new.ti)
+  \cup (IF isAdd /\ ~StartAllowed(pre, i, proto, NewPh, new.ti, FALSE)
         THEN {"C03.NoConflict"} ELSE {})
-  \cup (IF isAdd /\ (\E t \in t0..(new.ti - 1) : StartAllowed(pre, i, proto, NewPh, t))
+  \cup (IF isAdd /\ (\E t \in t0..(new.ti - 1) : StartAllowed(pre, i, proto, NewPh, t, TRUE))
         THEN {"C03.Minimal"} ELSE {})
   \cup (IF isAdd /\ proto = "no-delay" /\ new.ti - t0 > 0
            /\ new.ti # t0 + RoundUp(Max2(RefBarrier(pre, RefIdx(pre, CfgOf(pre, i).basis),
